@@ -27,11 +27,20 @@ var c13 struct {
 type c13prog struct {
 	Tag    string
 	Reqs   []resp.Value
-	Expect []c13exp
+	Expect []c13exp // static expectation (every well-formed SELECT succeeds); the judge recomputes it from the replies
+	Steps  []c13step
 }
 type c13exp struct {
 	Method string
 	DB     int
+}
+
+// c13step is one request of a program as the shadow sees it. What a SELECT or AUTH does to the connection's
+// state is decided by its REPLY (the state changes only through the connection's own successful commands).
+type c13step struct {
+	Kind   string // select-int | select-bad | auth-right | auth-wrong | other | call
+	N      int
+	Method string
 }
 
 func c13program(r *rng.R, tag string, n int, password bool) c13prog {
@@ -42,26 +51,32 @@ func c13program(r *rng.R, tag string, n int, password bool) c13prog {
 	for i := 0; i < n; i++ {
 		switch r.Intn(10) {
 		case 0, 1:
-			d := rng.Pick(r, []int{0, 1, 2, 3, 7, 15})
+			d := rng.Pick(r, []int{0, 1, 2, 3, 7, 15, 0, 1, 2, 3, 7, 15, -1, -7, 16, 1000000, 2147483647, 9223372036854775807})
 			p.Reqs = append(p.Reqs, resp.Cmd("SELECT", fmt.Sprint(d)))
+			p.Steps = append(p.Steps, c13step{Kind: "select-int", N: d})
 			if authed {
 				db = d
 			}
 		case 2:
 			p.Reqs = append(p.Reqs, resp.Cmd("SELECT", rng.Pick(r, []string{"abc", "", "1.5", "99999999999999999999"})))
+			p.Steps = append(p.Steps, c13step{Kind: "select-bad"})
 		case 3:
 			if password {
 				if r.Bool() {
 					p.Reqs = append(p.Reqs, resp.Cmd("AUTH", c08pass))
+					p.Steps = append(p.Steps, c13step{Kind: "auth-right"})
 					authed = true
 				} else if r.Bool() {
 					p.Reqs = append(p.Reqs, resp.Cmd("AUTH", rng.Pick(r, []string{"wrong", "", "Secr3"})))
+					p.Steps = append(p.Steps, c13step{Kind: "auth-wrong"})
 				} else {
+					p.Steps = append(p.Steps, c13step{Kind: "auth-wrong"})
 					// two-argument form with a wrong user name (right or wrong password): refused, changes nothing
 					p.Reqs = append(p.Reqs, resp.Cmd("AUTH", rng.Pick(r, []string{"admin", "alice"}), rng.Pick(r, []string{c08pass, "wrong"})))
 				}
 			} else {
 				p.Reqs = append(p.Reqs, resp.Cmd("PING"))
+				p.Steps = append(p.Steps, c13step{Kind: "other"})
 			}
 		default:
 			type op struct {
@@ -74,6 +89,7 @@ func c13program(r *rng.R, tag string, n int, password bool) c13prog {
 				{[]string{"SADD", k, "m"}, "SAdd"}, {[]string{"TYPE", k}, "Type"}, {[]string{"ZSCORE", k, "m"}, "ZScore"}, {[]string{"DEL", k}, "Del"},
 			})
 			p.Reqs = append(p.Reqs, resp.Cmd(o.args...))
+			p.Steps = append(p.Steps, c13step{Kind: "call", Method: o.method})
 			if authed {
 				p.Expect = append(p.Expect, c13exp{o.method, db})
 			}
@@ -101,7 +117,66 @@ func tagOf(c double.Call) string {
 }
 
 // c13judge checks every recorded call against the shadow of the tag it carries.
-func c13judge(res *run.Result, progs []c13prog, calls []double.Call, password bool, desc func() any) bool {
+// c13shadow walks a program with the replies the connection received: a SELECT changes the database iff it was
+// answered +OK, an AUTH authorizes iff it was answered +OK. Returns the handler calls that must have happened.
+func c13shadow(p c13prog, out []byte, password bool) (exp []c13exp, problem string) {
+	frames, _, rest, bad, _ := resp.DecodeAll(out)
+	if bad != "" || rest != 0 || len(frames) != len(p.Reqs) {
+		return nil, fmt.Sprintf("connection %s: %d requests, %d reply frames (rest=%d bad=%q)", p.Tag, len(p.Reqs), len(frames), rest, bad)
+	}
+	ok := resp.Status("OK")
+	db, authed := 0, !password
+	for i, st := range p.Steps {
+		f := frames[i]
+		switch st.Kind {
+		case "select-int":
+			switch {
+			case resp.Equal(f, ok):
+				if !authed {
+					return nil, fmt.Sprintf("connection %s request %d: SELECT answered +OK on an unauthorized connection", p.Tag, i)
+				}
+				db = st.N
+			case !f.IsErr():
+				return nil, fmt.Sprintf("connection %s request %d: SELECT %d answered %s", p.Tag, i, st.N, clipS(f.String(), 80))
+			}
+		case "select-bad":
+			if !f.IsErr() {
+				return nil, fmt.Sprintf("connection %s request %d: ill-formed SELECT answered %s", p.Tag, i, clipS(f.String(), 80))
+			}
+		case "auth-right", "auth-wrong":
+			if resp.Equal(f, ok) {
+				if st.Kind == "auth-wrong" {
+					return nil, fmt.Sprintf("connection %s request %d: a wrong AUTH was answered +OK", p.Tag, i)
+				}
+				authed = true
+			} else if st.Kind == "auth-right" {
+				return nil, fmt.Sprintf("connection %s request %d: AUTH with the exact password answered %s", p.Tag, i, clipS(f.String(), 80))
+			}
+		case "call":
+			if authed {
+				exp = append(exp, c13exp{st.Method, db})
+			}
+		}
+	}
+	return exp, ""
+}
+
+func c13judge(res *run.Result, progs []c13prog, outs [][]byte, calls []double.Call, password bool, desc func() any) bool {
+	progs = append([]c13prog{}, progs...)
+	for i := range progs {
+		exp, problem := c13shadow(progs[i], outs[i], password)
+		if problem != "" {
+			res.Violate("C13:replies:"+fmt.Sprint(password), "each connection's commands are answered according to its own state", problem, desc())
+			return false
+		}
+		for j := range exp {
+			if j >= len(progs[i].Expect) || exp[j] != progs[i].Expect[j] {
+				res.Count("expectations_decided_by_a_refused_select", 1)
+				break
+			}
+		}
+		progs[i].Expect = exp
+	}
 	byTag := map[string][]double.Call{}
 	var order []string
 	for _, c := range calls {
@@ -197,16 +272,18 @@ func c13run(idx int) run.Result {
 					timedOut = true
 				}
 			}
+			outs := make([][]byte, len(conns))
 			for i := range conns {
 				conns[i].End(sconn.EOF)
 				waits[i](serveWait)
+				outs[i] = conns[i].Snapshot().Out
 			}
 			if timedOut {
 				res.Inconclusive = "watchdog"
 				return res
 			}
 			res.Count("lockstep_orders", 1)
-			if !c13judge(&res, progs, rec.Snapshot(), password, desc) {
+			if !c13judge(&res, progs, outs, rec.Snapshot(), password, desc) {
 				return res
 			}
 		}
@@ -244,23 +321,26 @@ func c13run(idx int) run.Result {
 	srv := c13server(password, rec)
 	var wg sync.WaitGroup
 	timedOut := false
+	outs := make([][]byte, len(progs))
 	for i := range progs {
 		wg.Add(1)
-		go func(p c13prog) {
+		go func(i int, p c13prog) {
 			defer wg.Done()
 			stream, ends := encodeReqs(p.Reqs)
 			c := sconn.New(sconn.Script{Chunks: chunkAt(stream, ends), End: sconn.EOF})
-			if sr := double.Serve(srv, c, serveWait); sr.TimedOut {
+			sr := double.Serve(srv, c, serveWait)
+			if sr.TimedOut {
 				timedOut = true
 			}
-		}(progs[i])
+			outs[i] = sr.Snap.Out
+		}(i, progs[i])
 	}
 	wg.Wait()
 	if timedOut {
 		res.Inconclusive = "watchdog"
 		return res
 	}
-	c13judge(&res, progs, rec.Snapshot(), password, desc)
+	c13judge(&res, progs, outs, rec.Snapshot(), password, desc)
 	if idx%53 == 0 {
 		res.Sample = desc()
 	}
@@ -271,7 +351,7 @@ func init() {
 	run.Register(&run.Prop{
 		ID: "C13", Level: "exploration",
 		Rule: func(tier string) string {
-			return "case = 2..8 connections served by one server through hook H1 (children are built with the Go race detector), each running its own program of SELECT n (valid and invalid), AUTH (right and wrong; a third of the cases require a password) and single-call data commands whose keys carry the issuing connection's tag. Schedules: (systematic) two connections in lock-step under ALL 70 interleavings of two 4-request programs; (free-running) every connection on its own goroutine with seeded Gosched yields inside the handler double. Monitor: every handler call is attributed to the issuing connection by its key tag and must show conn.Database(), IsAuthrized(), a per-connection counter kept in the connection's sync.Map and the connection UUID equal to that connection's own command history (programs are sequential per connection, so the expectation is exact under any interleaving); UUIDs of different connections differ. Evidence reports distinct observed interleavings (hash of the global call order)"
+			return "case = 2..8 connections served by one server through hook H1 (children are built with the Go race detector), each running its own program of SELECT n (small, negative and huge indices; ill-formed tokens), AUTH (right and wrong; a third of the cases require a password) and single-call data commands whose keys carry the issuing connection's tag. Schedules: (systematic) two connections in lock-step under ALL 70 interleavings of two 4-request programs; (free-running) every connection on its own goroutine with seeded Gosched yields inside the handler double. Monitor: every handler call is attributed to the issuing connection by its key tag and must show conn.Database(), IsAuthrized(), a per-connection counter kept in the connection's sync.Map and the connection UUID equal to that connection's own command history, where a SELECT or AUTH counts iff its reply was +OK (programs are sequential per connection, so the expectation is exact under any interleaving); UUIDs of different connections differ. Evidence reports distinct observed interleavings (hash of the global call order)"
 		},
 		Assumptions: []string{"the per-connection user data is observed through the sync.Map embedded in redis.Conn"},
 		Setup: func(tier string, seed uint64) int {
